@@ -1024,7 +1024,23 @@ func (x *Exec) checkAsserts(st *State, b *ssa.BasicBlock, ins ssa.Instruction) {
 			return nil
 		}
 		for _, as := range fx.contract.Asserts {
-			if first := find(as.At, as.Nth); first != nil {
+			first := find(as.At, as.Nth)
+			if first != nil && strings.Contains(as.C.Text, "$ret") {
+				// an assertion about the returned value is proved at the return instruction of that line
+				_, line := fx.eng.srcLineFull(first.Pos())
+				var ret ssa.Instruction
+				for _, bb := range fx.fn.Blocks {
+					for _, in := range bb.Instrs {
+						if r, ok := in.(*ssa.Return); ok {
+							if _, l2 := fx.eng.srcLineFull(r.Pos()); l2 == line {
+								ret = r
+							}
+						}
+					}
+				}
+				first = ret
+			}
+			if first != nil {
 				fx.assertAnchor[first] = append(fx.assertAnchor[first], as)
 			} else {
 				fx.eng.mu.Lock()
@@ -1053,6 +1069,12 @@ func (x *Exec) checkAsserts(st *State, b *ssa.BasicBlock, ins ssa.Instruction) {
 				if phi, ok := in.(*ssa.Phi); ok && phi.Comment == name {
 					return st.env[phi], true
 				}
+			}
+			if name == "$ret" {
+				if r, ok := ins.(*ssa.Return); ok && len(r.Results) >= 1 {
+					return x.get(st, r.Results[0]), true
+				}
+				return Value{}, false
 			}
 			return x.lookupLocalBefore(st, name, b, ins)
 		}
